@@ -240,7 +240,18 @@ def leb128_obligations(ctx, rule):
         shifts = [n.value.value for n in ast.walk(wh) if isinstance(n, ast.AugAssign) and isinstance(n.op, ast.RShift) and isinstance(n.value, ast.Constant)]
         shifts += [n.value.right.value for n in ast.walk(wh) if isinstance(n, ast.Assign) and isinstance(n.value, ast.BinOp) and isinstance(n.value.op, ast.RShift) and isinstance(n.value.right, ast.Constant)
                    and len(n.targets) == 1 and isinstance(n.targets[0], ast.Name) and isinstance(n.value.left, ast.Name) and n.value.left.id == n.targets[0].id]
-        thr = wh.test.comparators[0].value if isinstance(wh.test, ast.Compare) and isinstance(wh.test.comparators[0], ast.Constant) and isinstance(wh.test.ops[0], ast.Gt) else None
+        thr = None
+        if isinstance(wh.test, ast.Compare) and len(wh.test.ops) == 1:
+            l_, r_, op_ = wh.test.left, wh.test.comparators[0], wh.test.ops[0]
+            # x > k, x >= k+1, k < x, k+1 <= x: the loop goes on while x exceeds k
+            if isinstance(r_, ast.Constant) and isinstance(op_, ast.Gt):
+                thr = r_.value
+            elif isinstance(r_, ast.Constant) and isinstance(op_, ast.GtE):
+                thr = r_.value - 1
+            elif isinstance(l_, ast.Constant) and isinstance(op_, ast.Lt):
+                thr = l_.value
+            elif isinstance(l_, ast.Constant) and isinstance(op_, ast.LtE):
+                thr = l_.value - 1
         ok = len(masks) == 1 and len(shifts) == 1 and masks[0] + 1 == 1 << shifts[0] and thr == masks[0]
         ctx.ob(rule, fi, ok, "the payload mask, the shift and the loop threshold describe the same group width (mask %s, shift %s, threshold %s)" % (masks, shifts, thr), key="group width")
         # parse side: same mask/shift
